@@ -134,6 +134,8 @@ type sim struct {
 	res     *Result
 	op      int
 	lastSrc []byte
+	// an earlier Bytes() result, as returned and as it was then
+	prevSrc, prevCopy []byte
 	// disk is the simulated storage: one buffer that every save overwrites and
 	// every load reads in place, the way an application reuses its I/O buffer.
 	disk []byte
@@ -628,7 +630,16 @@ func (s *sim) checkAccessors(tb *hclwrite.Body, mb *mBody, path string) {
 func (s *sim) checkSaved() []byte {
 	var src, src2 []byte
 	s.call("File.Bytes", func() { src = s.file.Bytes() })
+	keep := append([]byte{}, src...)
 	s.call("File.Bytes", func() { src2 = s.file.Bytes() })
+	// what Bytes() returned belongs to the caller: later saves must not touch it
+	if !bytes.Equal(src, keep) {
+		fail("bytes_unstable", "the slice returned by Bytes() was modified by the next Bytes() call:\n%s\n-----\n%s", keep, src)
+	}
+	if s.prevSrc != nil && !bytes.Equal(s.prevSrc, s.prevCopy) {
+		fail("bytes_unstable", "a slice returned by an earlier Bytes() call was modified by later edits and saves:\n%s\n-----\n%s", s.prevCopy, s.prevSrc)
+	}
+	s.prevSrc, s.prevCopy = src, keep
 	s.lastSrc = src
 	if !bytes.Equal(src, src2) {
 		fail("bytes_unstable", "two consecutive Bytes() calls differ:\n%s\n-----\n%s", src, src2)
